@@ -15,6 +15,7 @@ import (
 type Msg struct {
 	MT      int
 	Payload []byte
+	Partial bool // only part of the message is (ever) on the wire: it must not be reported complete
 	Note    string
 	Rec     *OpRec
 }
@@ -186,6 +187,9 @@ func checkDelivery(run *Run, prop, who string, want []Msg, obs []Obs, term strin
 			exp = bytes.TrimRight(w.Payload, "\n")
 		}
 		switch {
+		case w.Partial && o.Complete:
+			run.fail(prop, "partial-reported-complete", obsKind(o), "%s: message %d never finished on the wire (%d bytes of it were sent) but the read API reported it complete with %d bytes", who, k, len(exp), len(o.Data))
+			k++
 		case o.Complete:
 			if !bytes.Equal(o.Data, exp) {
 				d := firstDiff(o.Data, exp)
